@@ -32,7 +32,7 @@ func fieldNonNilCond(fld *types.Var) func(ssa.Value) (bool, bool) {
 }
 
 func checkC07(c *Ctx) {
-	c.Explanation = "Decides the structure of subscope closing: (O1) wherever a scope's metrics are cleared, the closed flag that decides it was sampled before that scope was reported (so everything recorded before Close is covered by the report); (O2) every clearMetrics outside the root shutdown is preceded on all paths by a report of that same scope (report dispatch on the configured reporter); (O3) every deletion from a registry bucket is gap-safe: either the key was obtained from the map inside the same uninterrupted write-locked region, or the delete is conditional on the key still mapping to the scope the caller supplied, and each caller supplies the scope it looked up and reported; (O4) Subscope returns the inert scope when root or parent is closed before any lookup, Close flips the flag by compare-and-swap and closes the done channel only on success; (O5) lock pairing and lock-order acyclicity for package tally."
+	c.Explanation = "Decides the structure of subscope closing: (O1) wherever a scope's metrics are cleared, the closed flag that decides it was sampled before that scope was reported (so everything recorded before Close is covered by the report); (O2) every clearMetrics outside the root shutdown is preceded on all paths by a report of that same scope (report dispatch on the configured reporter); (O3) every deletion from a registry bucket is gap-safe: either the key was obtained from the map inside the same uninterrupted write-locked region, or the delete is conditional on the key still mapping to the scope the caller supplied, and each caller supplies the scope it looked up and reported; (O4) Subscope returns the inert scope when root or parent is closed before any lookup, Close flips the flag by compare-and-swap and closes the done channel only on success; (O5) lock pairing (no lock leaked on any path) and lock-order acyclicity for package tally; (O6) a scope that Subscope returns out of a registry lookup was observed not closed (or is a test scope); (O7) a replacement scope is inserted only after a re-check under the write lock (miss, or dead entry replaced), and the unsafe lookup key is backed by storage private to the call."
 	c.NotDecided = []string{"the quantitative 'exactly once' across re-acquire cycles", "liveness"}
 	c.Assumptions = append(c.Assumptions, "Go atomics are sequentially consistent", "Go RWMutex semantics")
 
@@ -54,6 +54,11 @@ func checkC07(c *Ctx) {
 
 	// ---- O6 a scope handed out by the registry is live ----------------------------------------------------
 	c.checkLiveHandout("O6 live-handout")
+
+	// ---- O7 a re-acquired scope stays registered: created under the write lock only after a re-check
+	// made under that lock (shared with C09 O1); the unsafe lookup key stays private (C09 O4)
+	c.checkDoubleChecked("O7 double-checked", eng)
+	c.checkPrivateKeyBuffer("O7 private-key-buffer")
 
 	// ---- O5 ------------------------------------------------------------------------------------------
 	c.checkLockPairing("O5 lock-pairing", []string{""}, eng, 12)
